@@ -213,4 +213,39 @@ def Builder.run (b : Builder) (ops : List Op) : Option B :=
   | none => none
   | some b' => b'.build
 
+/-! ## integer payloads: the type → width table and two's complement
+
+`impl_write_to_header!(u8 … isize)`: each integer type writes `self.to_be_bytes()`. -/
+
+/-- The integer types that implement `WriteToHeader`. -/
+inductive IntTy where
+  | u8 | u16 | u32 | u64 | u128 | usize
+  | i8 | i16 | i32 | i64 | i128 | isize
+  deriving DecidableEq, Repr
+
+/-- `size_of::<T>()`: the natural width in bytes. `usize`/`isize` are 8 bytes: the
+model is of a 64-bit target (**assumption A4**). -/
+def IntTy.width : IntTy → Nat
+  | .u8 => 1 | .u16 => 2 | .u32 => 4 | .u64 => 8 | .u128 => 16 | .usize => 8
+  | .i8 => 1 | .i16 => 2 | .i32 => 4 | .i64 => 8 | .i128 => 16 | .isize => 8
+
+/-- Whether the type is a signed one. -/
+def IntTy.signed : IntTy → Bool
+  | .u8 | .u16 | .u32 | .u64 | .u128 | .usize => false
+  | .i8 | .i16 | .i32 | .i64 | .i128 | .isize => true
+
+/-- `T::MIN ≤ i ≤ T::MAX`. -/
+def IntTy.inRange (t : IntTy) (i : Int) : Bool :=
+  if t.signed then
+    decide (-(((256 ^ t.width / 2 : Nat) : Int)) ≤ i ∧ i < ((256 ^ t.width / 2 : Nat) : Int))
+  else
+    decide (0 ≤ i ∧ i < ((256 ^ t.width : Nat) : Int))
+
+/-- The bit pattern of `i` as a `w`-byte two's-complement number: `i mod 256^w`. -/
+def twos (w : Nat) (i : Int) : Nat := (i % ((256 ^ w : Nat) : Int)).toNat
+
+/-- A Rust integer value of type `t` as a payload: its natural width and its
+two's-complement bit pattern. -/
+def Payload.ofInt (t : IntTy) (i : Int) : Payload := .int t.width (twos t.width i)
+
 end V2
